@@ -257,7 +257,53 @@ class Interp:
     def modenv(self, mod: str) -> Env:
         if mod not in self._modenv:
             self._modenv[mod] = Env(mod)
+            self._module_init(mod, self._modenv[mod])
         return self._modenv[mod]
+
+    def _module_init(self, mod: str, env: Env) -> None:
+        """What importing the module does besides defining names: top-level calls, loops and registering decorators (a stage
+        registry filled by `stage(fn)` calls, a route table filled by `@post(path)`). Run once per interpreter, quietly: effects
+        and decisions of the import are not the analysed call's."""
+        m = self.prog.modules.get(mod)
+        tree = getattr(m, "tree", None)
+        if m is None or tree is None:
+            return
+        todo = []
+        for s in tree.body:
+            if isinstance(s, ast.Expr) and isinstance(s.value, ast.Call):
+                todo.append(s)
+            elif isinstance(s, (ast.For, ast.AugAssign)):
+                todo.append(s)
+            elif isinstance(s, (ast.FunctionDef, ast.AsyncFunctionDef)) and any(self._is_package_decorator(m, d) for d in s.decorator_list):
+                todo.append(s)
+        if not todo:
+            return
+        n_eff, val0, assumed0, dpos0, dec0 = len(self.effects), dict(self.val), len(self.assumed), self.dpos, list(self.decisions)
+        hooks0, self.hooks = self.hooks, Hooks()
+        try:
+            for s in todo:
+                try:
+                    if isinstance(s, (ast.FunctionDef, ast.AsyncFunctionDef)):
+                        fv = Func(mod, s.name, s)
+                        for d in reversed(s.decorator_list):
+                            if self._is_package_decorator(m, d):
+                                self.call(self.ev(d, env), [fv], {}, d, env)
+                    else:
+                        self.st(s, env)
+                except (_Raise, _Return, Unsupported, PathLimit, AnalysisError, RecursionError):
+                    pass
+        finally:
+            self.hooks = hooks0
+            del self.effects[n_eff:]
+            self.val, self.dpos, self.decisions = val0, dpos0, dec0
+            del self.assumed[assumed0:]
+
+    def _is_package_decorator(self, m, d) -> bool:
+        f = d.func if isinstance(d, ast.Call) else d
+        if isinstance(f, ast.Name):
+            return m.functions.own(f.id) if hasattr(m.functions, "own") else f.id in m.functions
+        dn = self.prog.dotted(m, f) or ""
+        return dn.startswith(PKG + ".") and self.prog.resolve(dn) is not None
 
     def global_lookup(self, mod: str, name: str):
         env = self.modenv(mod)
@@ -925,6 +971,8 @@ class Interp:
             exc = ExcV("builtins.AttributeError", {}, [Const(f"'NoneType' object has no attribute '{a}'")])
             self.effect("none-deref", a, site)
             raise _Raise(exc)
+        if isinstance(base, Tpl) and a == "template":
+            return base.text  # string.Template.template: the text it was made from
         if isinstance(base, ExcV):
             if a in base.kwargs:
                 return base.kwargs[a]
@@ -1379,8 +1427,27 @@ class Interp:
             for st in (cdef.body if cdef is not None else []):
                 tgt = st.targets[0] if isinstance(st, ast.Assign) and len(st.targets) == 1 else st.target if isinstance(st, ast.AnnAssign) else None
                 if isinstance(tgt, ast.Name) and tgt.id == name and getattr(st, "value", None) is not None:
-                    cache[key] = self.ev(st.value, self.modenv(mod))
+                    cache[key] = self.ev(st.value, self._class_env(mod, cls, cdef))
         return cache[key]
+
+    def _class_env(self, mod: str, cls: str, cdef) -> Env:
+        """the namespace a class body is evaluated in: the module's, plus the functions defined in the body (plain functions there,
+        not yet methods) and the class-level names assigned before"""
+        envs = self.__dict__.setdefault("_class_envs", {})
+        if (mod, cls) not in envs:
+            env = Env(mod, cls, self.modenv(mod))
+            envs[(mod, cls)] = env
+            for st in cdef.body:
+                if isinstance(st, (ast.FunctionDef, ast.AsyncFunctionDef)):
+                    env.vars[st.name] = Func(mod, f"{cls}.{st.name}", st, self_val=None)
+            for st in cdef.body:
+                tgt = st.targets[0] if isinstance(st, ast.Assign) and len(st.targets) == 1 else st.target if isinstance(st, ast.AnnAssign) else None
+                if isinstance(tgt, ast.Name) and getattr(st, "value", None) is not None and tgt.id not in env.vars:
+                    try:
+                        env.vars[tgt.id] = self.ev(st.value, env)
+                    except (_Raise, AnalysisError):
+                        pass
+        return envs[(mod, cls)]
 
     def _lazy_init(self, base: Obj) -> None:
         mod, cls = base.cls
@@ -1533,6 +1600,13 @@ class Interp:
         if b == "getattr" and len(args) == 2 and not kwargs and isinstance(args[1], Const) and isinstance(args[1].v, str) \
                 and isinstance(a0, (Obj, NodeV)):
             return self.getattr(a0, args[1].v, site)  # getattr(x, "name") is x.name
+        if b == "type" and len(args) == 1:
+            if isinstance(a0, NodeV) and a0.cls:
+                return ClsRef(f"exp.{a0.cls}")  # the exact class of a node of known class
+            if isinstance(a0, Obj) and a0.cls:
+                return ClsRef(f"{PKG}.{a0.cls[0]}.{a0.cls[1]}")
+            if isinstance(a0, Const):
+                return ClsRef("builtins." + type(a0.v).__name__)
         if b == "zip" and args and "strict" not in {k for k, v in kwargs.items() if isinstance(v, Const) and v.v}:
             cols = [self.iter_values(self.force(x), site) for x in args]
             if all(c is not None for c in cols):
@@ -1581,6 +1655,8 @@ class Interp:
                 raise _Raise(exc)
             return Sym(f"next({tagof(src)})", origin=("call", "next", args, kwargs))
         if d == "string.Template":
+            if isinstance(a0, Str) and all(isinstance(p_, str) for p_ in a0.parts):
+                a0 = Const("".join(a0.parts))  # a template text assembled from constant pieces
             return Tpl(a0)
         if d == "pathlib.Path":
             if isinstance(a0, Sym):
